@@ -17,6 +17,36 @@ def _b(x):
     return "true" if x else "false"
 
 
+
+def scan_cap(src, fn_name="complete_prefix_len"):
+    """does the tail-repair scan refuse record lengths the writer can produce?  Returns the Gallina
+    term of an `option N`: None = every u32 length is followed; Some c = lengths above c are treated
+    as a torn tail (Some 0 = a cap is there but its value could not be read)."""
+    _, body = find_fn(src, fn_name)
+    caps = []
+    for m in re.finditer(r"\blen\s*(>=|>)\s*([A-Za-z_][A-Za-z0-9_:]*|[0-9][0-9_]*)", body):
+        rhs = m.group(2)
+        if rhs in ("file_len",):
+            continue
+        val = None
+        if rhs[0].isdigit():
+            val = int(rhs.replace("_", ""))
+        else:
+            name = rhs.split("::")[-1]
+            cm = re.search(r"const\s+%s\s*:\s*\w+\s*=\s*([^;]+);" % re.escape(name), src)
+            if cm:
+                try:
+                    val = int(eval(cm.group(1).replace("_", ""), {"__builtins__": {}}, {}))
+                except Exception:
+                    val = None
+        caps.append(0 if val is None else val)
+    # a comparison of u64::from(len) / len as u64 against something other than the file length
+    for m in re.finditer(r"(u64::from\(len\)|len\s+as\s+u64)\s*(>=|>)\s*([A-Za-z_][A-Za-z0-9_:]*)", body):
+        if m.group(3) != "file_len":
+            caps.append(0)
+    return "None" if not caps else "(Some %d)" % min(caps)
+
+
 def generate(repo):
     items = {}
     tail_repair = ghost = replay_index = False
@@ -80,6 +110,12 @@ def generate(repo):
         items["checkpoint step order"] = "translated"
     except Exception as ex:
         items["checkpoint step order"] = "miss:%s" % ex
+    cap = "None"
+    try:
+        cap = scan_cap(strip_comments(read(repo, "tensor_store/src/wal.rs")))
+        items["TensorWal tail-repair scan follows every record length"] = "translated"
+    except Exception as ex:
+        items["TensorWal tail-repair scan follows every record length"] = "miss:%s" % ex
     text = HEADER + (
         "From NV.Common Require Import Base.\n\n"
         "(* tensor_store/src/wal.rs TensorWal::open *)\n"
@@ -98,4 +134,6 @@ def generate(repo):
         "Definition gen_ckpt_order_ok : bool := %s.\n"
         % (_b(tail_repair), _b(ghost), _b(replay_index), _b(put_order_ok), _b(meta_first), _b(slab_mirror), _b(ckpt_order_ok))
     )
+    text += ("(* TensorWal::complete_prefix_len: a record length above this bound is treated as a torn tail (None = no bound) *)\n"
+             "Definition gen_scan_cap : option N := %s.\n" % cap)
     return text, items
